@@ -462,6 +462,7 @@ type Src struct {
 	SubAt            []int
 	EmitAfterRelease int
 	DoubleTeardown   int
+	PanicTeardown    bool // the teardown panics after doing its bookkeeping
 	MaxLiveStrict    int // like MaxLive, not counting subscriptions whose own terminal call is in progress
 	NilCtx           int
 	Ctxs             []context.Context
@@ -670,6 +671,9 @@ func (s *Src) Obs() ro.Observable[int] {
 			panic("unknown source mode " + s.Spec.Mode)
 		}
 		return func() {
+			if s.PanicTeardown {
+				defer func() { panic(ScriptError(85)) }()
+			}
 			s.Teardowns++
 			s.Live--
 			sub.teardowns++
